@@ -56,6 +56,15 @@ def run_case(ctx, kind, rng, idx):
         ctx.count('large_sparse_cases')
     else:
         T, pi = mc.reversible_chain(rng, nmin=2, nmax=30)
+        if rng.random() < 0.06:
+            # almost - not exactly - symmetric: populations within 1e-6 of
+            # uniform (no shortcut for "symmetric" matrices applies)
+            n_ = len(T)
+            G = rng.random((n_, n_))
+            S_ = 1.0 + 1e-5 * (G + G.T) + np.eye(n_)
+            rs_ = S_.sum(axis=1)
+            T, pi = S_ / rs_[:, None], rs_ / rs_.sum()
+            ctx.count('nearly_symmetric_chains')
     n = len(T)
     src, snk = gen_sets(rng, n)
     if kind == 'large':
